@@ -16,6 +16,20 @@ package app_test
 //   (iii) position younger than the record's uptime: nothing claimable, and a withdrawal pays it nothing in that denom
 //         while other liquidity stays active                         key incentives:unmet-uptime-paid
 //   (iv)  incentive balance ≥ Σ claimable (oracleSolvency).
+// Non-default uptimes: per history a random non-empty subset of the six supported uptimes (1ns, 1m, 1h, 1d, 1w, 2w) is
+// authorised; records are created on the authorised ones (refused on the others); advanceToAge puts a position 1 ns below /
+// exactly at / 1 ns above / above / far above / below an uptime; uptimeScript builds the directed sequences.  Oracles from
+// the engine's own log of join times (posCreated: creation and add-to-position; nothing else writes it), record
+// parameters and block times:
+//   (a)   a transfer keeps what is collectable and what is forfeitable, per denom, and the join time
+//                                                                    keys incentives:transfer-changed-claimable:<uptime>:age-<class>,
+//                                                                    incentives:transfer-changed-join-time, incentives:join-time-differs-from-log:<op>
+//   (b)   per op and denom, on branches synced to the block time: phi = paid out + claimable + forfeitable − emitted (keeper
+//         records) does not fall by more than the rounding dust: forfeits reach the accumulators (liquidity that stays active)
+//         or the withdrawer (none stays active)                      keys incentives:forfeit-not-redeposited:<op>:<uptime> (position acted
+//                                                                    upon younger than the uptime), incentives:attributable-lost:<op>:<uptime>
+//   (c)   age ≥ uptime ⇒ nothing forfeitable / forfeited, age < uptime ⇒ nothing collectable / collected, on every claimable
+//         query and claim                                            keys incentives:uptime-gate:(young-position-collects|old-position-forfeits):…
 // Spread rewards, no loss: what sits in the spread-reward address and nobody can claim is bounded by rounding dust
 //   balance − Σ claimable ≤ dust        (⇔ Σ claimed + Σ claimable ≥ Σ fees paid in − dust)   key rewards:spread-lost:<op-class>
 
@@ -58,11 +72,17 @@ type clIncState struct {
 	paidOut  map[string]*big.Int // per denom: everything that reached an account from the incentive address (claims, withdrawals, returned forfeits)
 	deposited map[string]*big.Int // per denom: sum of the amounts of the records created
 	denomUptime map[string]time.Duration // records sharing a denom share the uptime
+	// per-op conservation (oracle b): phi = paid out + claimable + forfeitable (query) - emitted (keeper records), per denom, on a
+	// branch synced to the block time, as measured after the previous op; the number of live positions and the rounding unit then
+	phi     map[string]*big.Rat
+	phiPos  int
+	phiUnit *big.Int
+	opYoung map[string]bool // denoms whose uptime the position acted upon by the current op had NOT reached (engine's own join-time log)
 }
 
 func newIncState() *clIncState {
 	return &clIncState{bound: map[uint64]map[string]*big.Rat{}, paid: map[uint64]map[string]*big.Int{}, join: map[uint64]time.Time{}, deadPaid: map[string]*big.Int{},
-		paidOut: map[string]*big.Int{}, deposited: map[string]*big.Int{}, denomUptime: map[string]time.Duration{}}
+		paidOut: map[string]*big.Int{}, deposited: map[string]*big.Int{}, denomUptime: map[string]time.Duration{}, phi: map[string]*big.Rat{}, opYoung: map[string]bool{}}
 }
 
 
@@ -425,9 +445,16 @@ func (e *clEngine) createIncentiveClass(cls string) {
 		cls = "dry"
 	}
 	denom := fmt.Sprintf("inc%d", e.inc.nextDen)
-	upt := cltypes.SupportedUptimes[0]
-	if e.r.Intn(2) == 0 {
-		upt = cltypes.SupportedUptimes[e.r.Intn(4)]
+	// minimum uptime: one of the AUTHORISED ones (a non-default one two times out of three when there is one); now and then any
+	// supported one (CreateIncentive must refuse an unauthorised uptime)
+	upt := cltypes.SupportedUptimes[e.auth[e.r.Intn(len(e.auth))]]
+	if nd := e.nonDefaultAuth(); len(nd) > 0 && e.r.Intn(3) != 0 {
+		upt = cltypes.SupportedUptimes[nd[e.r.Intn(len(nd))]]
+	}
+	if e.forceUptime >= 0 {
+		upt = cltypes.SupportedUptimes[e.forceUptime]
+	} else if e.r.Intn(12) == 0 {
+		upt = cltypes.SupportedUptimes[e.r.Intn(len(cltypes.SupportedUptimes))]
 	}
 	shared := false
 	if cls == "same-denom" {
@@ -448,6 +475,10 @@ func (e *clEngine) createIncentiveClass(cls string) {
 		life = int64(1 + e.r.Intn(60))
 	case 1:
 		life = int64(1 + e.r.Intn(200000))
+	case 2: // comparable with the uptime (0.3 .. 3 x): positions are on either side of it while the record is emitting
+		if us := int64(upt / time.Second); us >= 10 && cls != "same-denom" {
+			life = us*3/10 + e.r.Int63n(us*27/10)
+		}
 	}
 	var amt, rate *big.Int
 	rateFor := func(a *big.Int) *big.Int { // a / life per second, as a multiple of 10^9 raw (at least 10^9)
@@ -508,10 +539,16 @@ func (e *clEngine) createIncentiveClass(cls string) {
 	line := fmt.Sprintf("clp incentive %d %s %s %s %d %d", rec.IncentiveId, denom, amt, rate, start.Sub(e.inc.t0).Nanoseconds(), uptimeIndex(upt))
 	if err != nil {
 		e.o.Count("incentive.err")
+		if !e.isAuthorized(upt) {
+			e.o.Count("incentive.err:unauthorized-uptime:" + uptimeLabelOf(upt))
+		}
 		e.o.Emit(fmt.Sprintf("clp incentive 0 %s %s %s %d %d", denom, amt, rate, start.Sub(e.inc.t0).Nanoseconds(), uptimeIndex(upt)), "err", true)
 		return
 	}
 	e.o.Emit(line, "ok", true)
+	if !e.isAuthorized(upt) {
+		e.o.Fail("incentives:record-created-on-unauthorized-uptime:"+uptimeLabelOf(upt), fmt.Sprintf("op %d %s | %s", e.opn, line, e.replay()))
+	}
 	if !shared {
 		e.inc.nextDen++
 	}
@@ -531,7 +568,7 @@ func (e *clEngine) createIncentiveClass(cls string) {
 	if cls == "grain" {
 		e.o.Count("incentive.unscaled-large-liquidity-grain:" + liqClass(L))
 	}
-	e.o.Count(fmt.Sprintf("incentive.uptime-%s", upt))
+	e.o.Count("incentive.uptime-" + uptimeLabelOf(upt))
 	if future {
 		e.o.Count("incentive.future-start")
 	}
@@ -682,6 +719,7 @@ func (e *clEngine) collectIncentivesOp() {
 		}
 	}
 	e.checkUnmetPaid(q, resp.CollectedIncentives, "collect")
+	e.claimClasses(q, "collect-incentives", resp.CollectedIncentives, resp.ForfeitedIncentives, "dropped")
 	q.untouched = false
 }
 
@@ -733,6 +771,11 @@ func (e *clEngine) incAfter(s incSnap, owner int, what string, L *big.Int) {
 	}
 	_ = p
 	stillActive := L.Cmp(pow10(18)) >= 0
+	if stillActive {
+		e.claimClasses(s.q, e.opClass, s.c, s.forf, "redeposited")
+	} else {
+		e.claimClasses(s.q, e.opClass, s.c, s.forf, "refunded-no-active-liquidity")
+	}
 	if stillActive {
 		// forfeited incentives go back to the accumulators: credited to whoever is in range now
 		// On pools past the incentive scaling migration the forfeit is redeposited in SCALED form, i.e. the position's
@@ -847,6 +890,25 @@ func (e *clEngine) oracleIncentives() {
 			if age < upt {
 				e.o.Count("incentive.unmet-uptime-checked")
 			}
+			// (c) the uptime gate against the engine's own join-time log: younger than the uptime -> nothing collectable from that
+			// accumulator, at least as old -> nothing forfeitable (it collects everything it accrued)
+			cls := uptimeLabelOf(upt) + ":age-" + ageClass(age, upt)
+			e.o.Count("uptime-gate.checked:" + cls)
+			if age < upt {
+				if c.AmountOf(d).IsPositive() {
+					e.o.Fail("incentives:uptime-gate:young-position-collects:"+cls, fmt.Sprintf("op %d (%s) pos %d joined %dns age %s uptime %s: claimable %s forfeitable %s | %s", e.opn, e.opClass, id, e.inc.join[id].Sub(e.inc.t0).Nanoseconds(), age, upt, c, f, e.replay()))
+				}
+				if f.AmountOf(d).IsPositive() {
+					e.o.Count("uptime-gate.young-forfeitable-nonzero:" + cls)
+				}
+			} else {
+				if f.AmountOf(d).IsPositive() {
+					e.o.Fail("incentives:uptime-gate:old-position-forfeits:"+cls, fmt.Sprintf("op %d (%s) pos %d joined %dns age %s uptime %s: claimable %s forfeitable %s | %s", e.opn, e.opClass, id, e.inc.join[id].Sub(e.inc.t0).Nanoseconds(), age, upt, c, f, e.replay()))
+				}
+				if c.AmountOf(d).IsPositive() {
+					e.o.Count("uptime-gate.old-collectable-nonzero:" + cls)
+				}
+			}
 		}
 	}
 	// (ii) the records
@@ -898,7 +960,13 @@ func (e *clEngine) oracleIncentives() {
 		emitLog[r.denom].Add(emitLog[r.denom], new(big.Rat).Sub(new(big.Rat).SetInt(r.initial), r.remaining))
 	}
 	if !queriesOK {
+		e.inc.phi, e.inc.opYoung = map[string]*big.Rat{}, map[string]bool{}
 		return
+	}
+	unitNow := e.incLiqUnit()
+	unit := unitNow
+	if e.inc.phiUnit != nil && e.inc.phiUnit.Cmp(unit) > 0 {
+		unit = e.inc.phiUnit
 	}
 	bal := e.h.App.BankKeeper.GetAllBalances(cctx, e.pool().GetIncentivesAddress())
 	for _, d := range denoms {
@@ -934,8 +1002,300 @@ func (e *clEngine) oracleIncentives() {
 		if tot.Sign() > 0 {
 			e.o.Count("incentive.conservation-checked-nonzero:" + cls)
 		}
+		// (b) nothing is lost by the op: phi = paid out + claimable + forfeitable - emitted must not fall by more than the
+		// rounding dust (one unit per live position and truncated claim; one liquidity unit per division by the liquidity: every
+		// record's emission and one redeposit, in the measurement before and after).  Forfeited amounts must therefore have reached
+		// the accumulators (for the liquidity that stays active) or the withdrawer (no active liquidity left).
+		phi := new(big.Rat).Sub(new(big.Rat).SetInt(tot), emitReal[d])
+		if prev, ok := e.inc.phi[d]; ok {
+			nrec := 0
+			for _, r := range e.inc.incs {
+				if r.denom == d {
+					nrec++
+				}
+			}
+			budget := new(big.Int).Mul(big.NewInt(int64(2*nrec+2)), unit)
+			budget.Add(budget, big.NewInt(int64(e.inc.phiPos+len(e.pos)+2)))
+			loss := new(big.Rat).Sub(prev, phi)
+			lab := uptimeLabelOf(e.inc.denomUptime[d])
+			if loss.Cmp(new(big.Rat).SetInt(budget)) > 0 {
+				key := "incentives:attributable-lost:" + e.opClass + ":" + lab
+				if e.inc.opYoung[d] {
+					key = "incentives:forfeit-not-redeposited:" + e.opClass + ":" + lab
+				}
+				e.o.Fail(key, fmt.Sprintf("op %d: %s of denom %s (uptime %s) attributable to some position or paid out before the op belong to nobody after it (dust budget %s): ", e.opn, loss.FloatString(3), d, lab, budget)+what())
+			} else if e.inc.opYoung[d] {
+				e.o.Count("conservation.forfeits-flowed-back:" + e.opClass + ":" + lab)
+			} else if tot.Sign() > 0 {
+				e.o.Count("conservation.op-checked-nonzero:" + e.opClass)
+			}
+		}
+		e.inc.phi[d] = phi
+	}
+	e.inc.phiPos, e.inc.phiUnit, e.inc.opYoung = len(e.pos), unitNow, map[string]bool{}
+}
+
+// incLiqUnit: what one truncated division by the liquidity can lose, in whole tokens (+1): the per-liquidity amount is
+// truncated at 18 decimals of the SCALED amount, i.e. up to liquidity x 10^-18 / factor tokens.
+func (e *clEngine) incLiqUnit() *big.Int {
+	tot := new(big.Int)
+	for _, q := range e.pos {
+		tot.Add(tot, q.liq)
+	}
+	if p := e.pool().GetLiquidity().BigInt(); p.Cmp(tot) > 0 {
+		tot.Set(p)
+	}
+	tot.Quo(tot, pow10(18))
+	tot.Quo(tot, e.ifactor.BigInt())
+	return tot.Add(tot, big.NewInt(1))
+}
+
+var uptimeLabels = []string{"1ns", "1m", "1h", "1d", "1w", "2w"}
+
+func uptimeLabel(i int) string {
+	if i < 0 || i >= len(uptimeLabels) {
+		return "unsupported"
+	}
+	return uptimeLabels[i]
+}
+
+func uptimeLabelOf(d time.Duration) string { return uptimeLabel(uptimeIndex(d)) }
+
+// ageClass: where a position's age is relative to an uptime.
+func ageClass(age, u time.Duration) string {
+	switch {
+	case age == u-1:
+		return "1ns-below"
+	case age == u:
+		return "exactly-at"
+	case age == u+1:
+		return "1ns-above"
+	case age < u:
+		return "below"
+	case age >= 2*u:
+		return "far-above"
+	}
+	return "above"
+}
+
+func (e *clEngine) isAuthorized(u time.Duration) bool {
+	for _, i := range e.auth {
+		if cltypes.SupportedUptimes[i] == u {
+			return true
+		}
+	}
+	return false
+}
+
+func (e *clEngine) nonDefaultAuth() []int {
+	var nd []int
+	for _, i := range e.auth {
+		if i > 0 {
+			nd = append(nd, i)
+		}
+	}
+	return nd
+}
+
+// claimClasses: a claim-like op (collect incentives, withdrawal, add-to-position) on position q: per incentive denom the age
+// class of the position relative to the denom's uptime (engine's join-time log), what it was paid and what it forfeited;
+// marks the denoms in which the position was too young (their forfeits must flow back: oracle b).
+func (e *clEngine) claimClasses(q *clPos, op string, collected, forfeited sdk.Coins, outcome string) {
+	age := e.h.Ctx.BlockTime().Sub(e.inc.join[q.id])
+	for _, d := range e.incDenoms() {
+		u := e.inc.denomUptime[d]
+		cls := op + ":" + uptimeLabelOf(u) + ":age-" + ageClass(age, u)
+		e.o.Count("claim." + cls)
+		if age < u {
+			e.inc.opYoung[d] = true
+			if forfeited.AmountOf(d).IsPositive() {
+				e.o.Count("claim.forfeit-nonzero:" + cls + ":" + outcome)
+			}
+		} else {
+			if collected.AmountOf(d).IsPositive() {
+				e.o.Count("claim.collected-nonzero:" + cls)
+			}
+			if forfeited.AmountOf(d).IsPositive() {
+				e.o.Fail("incentives:uptime-gate:old-position-forfeits:"+cls, fmt.Sprintf("op %d pos %d age %s uptime %s: collected %s forfeited %s | %s", e.opn, q.id, age, u, collected, forfeited, e.replay()))
+			}
+		}
 	}
 }
+
+// uptimeScript: directed sequence around one non-default authorised uptime u: (new in-range position) -> incentive record(s) on
+// u -> time passes while the position is younger than u (-> swap) -> block-time advance that puts the position 1 ns below /
+// exactly at / 1 ns above / above / far above / below u -> transfer (-> time -> claim / withdrawal by the new owner) | partial
+// withdrawal (-> claim) | full withdrawal | add-to-position (-> claim by the successor) | collect incentives -> everybody withdraws.
+func (e *clEngine) uptimeScript(nd []int) []scriptStep {
+	u := nd[e.r.Intn(len(nd))]
+	var q []scriptStep
+	id := ^uint64(0) // the position the sequence is about: the one created by its first step ...
+	if e.r.Intn(3) == 0 { // ... or an existing one (any age), preferably in range
+		p := e.anyPos()
+		cur := e.pool().GetCurrentTick()
+		for try := 0; try < 6 && !(p.lower <= cur && cur < p.upper); try++ {
+			p = e.anyPos()
+		}
+		id = p.id
+	} else {
+		q = append(q, scriptStep{kind: kCreateIn})
+	}
+	q = append(q, scriptStep{kind: kIncentiveUptime, arg: u})
+	if len(nd) > 1 && e.r.Intn(3) == 0 { // a record on a second non-default uptime: one claim can forfeit in two accumulators
+		q = append(q, scriptStep{kind: kIncentiveUptime, arg: nd[e.r.Intn(len(nd))]})
+	}
+	q = append(q, scriptStep{kind: kAdvanceAge, id: id, arg: u*8 + 5})
+	if e.r.Intn(2) == 0 {
+		q = append(q, scriptStep{kind: kSwap})
+	}
+	q = append(q, scriptStep{kind: kAdvanceAge, id: id, arg: u*8 + e.r.Intn(6)})
+	fin := func() scriptStep {
+		switch e.r.Intn(4) {
+		case 0:
+			return scriptStep{kind: kWithdraw, id: id}
+		case 1:
+			return scriptStep{kind: kWithdrawFull, id: id}
+		case 2:
+			return scriptStep{kind: kAdd, id: id}
+		}
+		return scriptStep{kind: kICollect, id: id}
+	}
+	switch e.r.Intn(6) {
+	case 0, 1: // transfer, then the new owner claims / withdraws at an age relative to u (right away, a little later, at a boundary)
+		q = append(q, scriptStep{kind: kTransfer, id: id})
+		switch e.r.Intn(3) {
+		case 0:
+			q = append(q, scriptStep{kind: kAdvance})
+		case 1:
+			q = append(q, scriptStep{kind: kAdvanceAge, id: id, arg: u*8 + e.r.Intn(5)})
+		}
+		q = append(q, fin())
+		e.o.Count("script.uptime-sequence:transfer-claim:" + uptimeLabel(u))
+	case 2: // partial withdrawal (while other liquidity is active), then the rest claims
+		q = append(q, scriptStep{kind: kWithdraw, id: id}, scriptStep{kind: kICollect, id: id})
+		e.o.Count("script.uptime-sequence:partial-withdraw:" + uptimeLabel(u))
+	case 3:
+		q = append(q, scriptStep{kind: kWithdrawFull, id: id})
+		e.o.Count("script.uptime-sequence:full-withdraw:" + uptimeLabel(u))
+	case 4: // add-to-position = full withdrawal + new position (new id, new join time); the successor claims
+		q = append(q, scriptStep{kind: kAdd, id: id}, scriptStep{kind: kAdvance}, scriptStep{kind: kICollect, id: ^uint64(0)})
+		e.o.Count("script.uptime-sequence:add:" + uptimeLabel(u))
+	default:
+		q = append(q, scriptStep{kind: kICollect, id: id})
+		if e.r.Intn(2) == 0 { // and once more on the other side of the uptime
+			q = append(q, scriptStep{kind: kAdvanceAge, id: id, arg: u*8 + 1 + e.r.Intn(4)}, scriptStep{kind: kICollect, id: id})
+		}
+		e.o.Count("script.uptime-sequence:collect:" + uptimeLabel(u))
+	}
+	return append(q, scriptStep{kind: kSolvency})
+}
+
+// advanceToAge: a block-time advance that puts position q at an age relative to the supported uptime with index ui:
+// class 0: 1 ns below, 1: exactly at, 2: 1 ns above, 3: above (below twice the uptime), 4: far above, 5: below.
+func (e *clEngine) advanceToAge(q *clPos, ui, cls int) {
+	u := cltypes.SupportedUptimes[ui]
+	age := e.h.Ctx.BlockTime().Sub(e.inc.join[q.id])
+	var target time.Duration
+	name := ""
+	switch cls {
+	case 0:
+		target, name = u-1, "1ns-below"
+	case 1:
+		target, name = u, "exactly-at"
+	case 2:
+		target, name = u+1, "1ns-above"
+	case 3:
+		target, name = u+2+time.Duration(e.r.Int63n(int64(u)-2)), "above"
+	case 4:
+		target, name = 2*u+time.Duration(e.r.Int63n(int64(u))), "far-above"
+	default:
+		target, name = 1+time.Duration(e.r.Int63n(int64(u)-2)), "below"
+	}
+	d := target - age
+	if d <= 0 {
+		e.o.Count("time.age-target.already-older:" + uptimeLabel(ui))
+		d = time.Duration(1 + e.r.Int63n(int64(90*time.Second)))
+	} else {
+		e.o.Count("time.age-target:" + uptimeLabel(ui) + ":" + name)
+	}
+	e.advanceTime(d)
+}
+
+// oracle (a): a transfer keeps the reward entitlement and the join time.
+type transferSnap struct {
+	q    *clPos
+	c, f sdk.Coins
+	join time.Time
+	ok   bool
+}
+
+func (e *clEngine) transferBefore(q *clPos) transferSnap {
+	k := e.h.App.ConcentratedLiquidityKeeper
+	s := transferSnap{q: q}
+	var err error
+	if !catch(func() { s.c, s.f, err = k.GetClaimableIncentives(e.ctx(), q.id) }) || err != nil {
+		return s
+	}
+	p, err := k.GetPosition(e.ctx(), q.id)
+	if err != nil {
+		return s
+	}
+	s.join, s.ok = p.JoinTime, true
+	return s
+}
+
+// transferAfter: what the new owner can collect right after the transfer equals what the old owner could collect right before
+// it (same block time), per denom; so does the forfeitable part; the join time is the one logged at creation.
+func (e *clEngine) transferAfter(s transferSnap) {
+	if !s.ok {
+		return
+	}
+	k := e.h.App.ConcentratedLiquidityKeeper
+	id := s.q.id
+	var c, f sdk.Coins
+	var err error
+	if !catch(func() { c, f, err = k.GetClaimableIncentives(e.ctx(), id) }) || err != nil {
+		e.o.Fail("incentives:claimable-query-failed", fmt.Sprintf("op %d pos %d after transfer %v | %s", e.opn, id, err, e.replay()))
+		return
+	}
+	age := e.h.Ctx.BlockTime().Sub(e.inc.join[id])
+	for _, d := range e.incDenoms() {
+		u := e.inc.denomUptime[d]
+		cls := uptimeLabelOf(u) + ":age-" + ageClass(age, u)
+		e.o.Count("transfer.entitlement-checked:" + cls)
+		if s.c.AmountOf(d).IsPositive() {
+			e.o.Count("transfer.entitlement-checked:collectable-nonzero:" + cls)
+		}
+		if s.f.AmountOf(d).IsPositive() {
+			e.o.Count("transfer.entitlement-checked:forfeitable-nonzero:" + cls)
+		}
+		if !c.AmountOf(d).Equal(s.c.AmountOf(d)) || !f.AmountOf(d).Equal(s.f.AmountOf(d)) {
+			e.o.Fail("incentives:transfer-changed-claimable:"+cls, fmt.Sprintf("op %d pos %d age %s denom %s (uptime %s): before the transfer collectable %s forfeitable %s, after it %s / %s | %s", e.opn, id, age, d, u, s.c, s.f, c, f, e.replay()))
+		}
+	}
+	np, err := k.GetPosition(e.ctx(), id)
+	if err != nil || !np.JoinTime.Equal(s.join) || !np.JoinTime.Equal(e.inc.join[id]) {
+		e.o.Fail("incentives:transfer-changed-join-time", fmt.Sprintf("op %d pos %d join time before %s after %s logged at creation %s | %s", e.opn, id, s.join, np.JoinTime, e.inc.join[id], e.replay()))
+	}
+}
+
+// oracleJoinTimes: the stored join time of every live position is the block time of its creation as the engine logged it
+// (create: then; add-to-position: the successor joins at the time of the add; transfer, partial withdrawal, claims: unchanged).
+func (e *clEngine) oracleJoinTimes() {
+	k := e.h.App.ConcentratedLiquidityKeeper
+	for id := range e.pos {
+		p, err := k.GetPosition(e.ctx(), id)
+		if err != nil {
+			continue
+		}
+		if !p.JoinTime.Equal(e.inc.join[id]) {
+			e.o.Fail("incentives:join-time-differs-from-log:"+e.opClass, fmt.Sprintf("op %d pos %d stored %dns logged %dns | %s", e.opn, id, p.JoinTime.Sub(e.inc.t0).Nanoseconds(), e.inc.join[id].Sub(e.inc.t0).Nanoseconds(), e.replay()))
+		} else {
+			e.o.Count("join.checked")
+		}
+	}
+}
+
 
 // oracleNoLoss: spread rewards nobody can claim are bounded by rounding dust.
 // dust budget per denom: one unit per swap (the fee transfer is the ceiling of the step charges), one per loop iteration
